@@ -2,7 +2,7 @@
 C20 (NODE.ALLOC / NODE.FREE / DTOR.WALK) and the SHARED-FIELD discipline.  DESIGN.md section 4."""
 import re
 from facts import AnalysisBroken
-from pathsim import S, C, show, symbols, is_const, is_atomic_record
+from pathsim import S, C, show, symbols, is_const, is_atomic_record, cond_truth
 from locks import Sink, has_acquire, has_release, is_write
 
 NS = 'dbgroup::thread::'
@@ -202,10 +202,20 @@ class EpochRules:
                 v = same[0]['result']
                 lt = None
                 for c, o, _ in p.conds:
-                    if isinstance(c, tuple) and c[0] == 'op' and c[2] == v and c[1] in ('<', '!=') and self.is_max(c[3]):
-                        lt = o
-                    elif isinstance(c, tuple) and c[0] == 'op' and c[2] == v and c[1] in ('==', '>=') and self.is_max(c[3]):
-                        lt = not o
+                    neg = False
+                    while isinstance(c, tuple) and c and c[0] == 'not':
+                        c, neg = c[1], not neg
+                    if not (isinstance(c, tuple) and c and c[0] == 'op'):
+                        continue
+                    op, a, b = c[1], c[2], c[3]
+                    if b == v and self.is_max(a):     # max OP v  ->  v OP' max
+                        op = {'>': '<', '<': '>', '>=': '<=', '<=': '>=', '==': '==', '!=': '!='}.get(op)
+                        a, b = b, a
+                    if a == v and self.is_max(b):
+                        if op in ('<', '!='):
+                            lt = (o != neg)
+                        elif op in ('==', '>='):
+                            lt = ((not o) != neg)
                 if lt is None:
                     sink.unsup('C04.SCAN', 'sentinel test', self.loc(f, same[0]['line']), 'comparison of the pin with the sentinel not recognised')
                     continue
@@ -268,12 +278,7 @@ class EpochRules:
         return (is_const(v) and v[1] == MAXV) or 'numeric_limits' in show(v) and 'max' in show(v)
 
     def cond_of(self, p, v):
-        for c, o, _ in p.conds:
-            if c == v or c == ('ne0', v):
-                return o
-            if isinstance(c, tuple) and c[0] == 'not' and c[1] in (v, ('ne0', v)):
-                return not o
-        return None
+        return cond_truth(p.conds, v)
 
     # ================================================================== C04 (rest)
     def c04(self):
@@ -286,7 +291,12 @@ class EpochRules:
                     if e['kind'] == 'atomic' and is_write(e) and e['obj'][0] == 'field' and e['obj'][2] == self.entf:
                         if f['key'] == self.F['ep.EnterEpoch']['key']:
                             v = e['value']
-                            good = e['op'] == 'store' and isinstance(v, tuple) and v[0] == 'app' and v[1] == 'GetCurrentEpoch' and e['obj'] == ent
+                            inl = [x for x in p.events if x['kind'] == 'atomic' and x['op'] == 'load' and x.get('result') == v and
+                                   x['obj'] == ('deref', S('this->' + self.curf)) and x['seq'] < e['seq']]
+                            for x in inl:
+                                sink.emit('C17.PUB', 'ok' if has_acquire(x['orders'][0]) else 'violated', 'global epoch read order=%s' % x['orders'][0], self.loc(f, x['line']),
+                                          'the list of the epoch read must be visible: acquire')
+                            good = e['op'] == 'store' and e['obj'] == ent and ((isinstance(v, tuple) and v[0] == 'app' and v[1] == 'GetCurrentEpoch') or bool(inl))
                             sink.emit('C04.ENTER', 'ok' if good else 'violated', 'EnterEpoch pins the current global epoch', self.loc(f, e['line']), 'stores %s' % show(v))
                         elif f['key'] == self.F['ep.LeaveEpoch']['key']:
                             good = e['op'] == 'store' and self.is_max(e['value']) and e['obj'] == ent
@@ -366,12 +376,7 @@ class EpochRules:
                 sink.emit('C04.GUARD', 'ok' if good else 'violated', 'EpochGuard(Epoch*) enters the epoch of its argument', self.loc(f), '')
             elif f['kind'] == 'dtor' or f.get('move_assign'):
                 for p in ps:
-                    own = None
-                    for c, o, _ in p.conds:
-                        if isinstance(c, tuple) and c[0] == 'op' and c[1] == '!=' and c[2] == S('this->' + pf) and is_const(c[3]):
-                            own = o
-                        elif c == ('ne0', S('this->' + pf)):
-                            own = o
+                    own = cond_truth(p.conds, S('this->' + pf))
                     calls = [e for e in p.events if e['kind'] == 'call' and e.get('callee') == leave]
                     if own is None:
                         sink.bad('C04.GUARD', '%s path without ownership test' % sname(f['name']), self.loc(f), '')
@@ -418,8 +423,15 @@ class EpochRules:
             if good:
                 nodev = at[0]['obj'][1]
                 # the node selected: last loop condition false on it
-                sel = [c for c, o, _ in p.conds if not o and isinstance(c, tuple) and c[0] == 'op' and c[1] == '>' and c[3] == ('op', '&', ep, C(up), 64)
-                       and c[2] == S(show(('field', nodev, self.upf)))]
+                want_hi, want_lo = S(show(('field', nodev, self.upf))), ('op', '&', ep, C(up), 64)
+                sel = []
+                for c, o, _ in p.conds:
+                    if isinstance(c, tuple) and c[0] == 'op' and not o:
+                        if (c[1] == '>' and c[2] == want_hi and c[3] == want_lo) or (c[1] == '<' and c[3] == want_hi and c[2] == want_lo):
+                            sel.append(c)
+                    if isinstance(c, tuple) and c[0] == 'op' and o:
+                        if (c[1] == '<=' and c[2] == want_hi and c[3] == want_lo) or (c[1] == '>=' and c[3] == want_hi and c[2] == want_lo):
+                            sel.append(c)
                 good = bool(sel)
             sink.emit('C17.OWN', 'ok' if good else 'violated', 'node lookup: first node whose range is not above the epoch, list = epoch & lower mask', self.loc(g, p.ret_line), '')
         # LIST.CONST: who mutates vectors
@@ -576,7 +588,7 @@ class EpochRules:
                 if v in seen:
                     sink.bad('C20.WALK', '~EpochManager deletes a node twice', self.loc(d, e['line']), norm(v))
                 seen.add(v)
-                nxt = [x for x in p.events if x['kind'] == 'assign_local' and x['seq'] < e['seq'] and x['value'] == S(show(('field', v, self.nextf)))]
+                nxt = [x for x in p.events if x['kind'] in ('assign_local', 'decl') and x['seq'] < e['seq'] and x.get('value') == S(show(('field', v, self.nextf)))]
                 sink.emit('C20.WALK', 'ok' if nxt else 'violated', '~EpochManager reads node->next before deleting the node', self.loc(d, e['line']), norm(v))
             if dels:
                 first = dels[0]['value']
